@@ -2,4 +2,4 @@ SPECIFICATION Spec
 CONSTANTS
   Backend <- MCBackend
   Names <- MCNames
-INVARIANTS Injective RefsSubset AppliedOnce InnermostWins Emit
+INVARIANTS Injective RefsSubset DisableIsLocal AppliedOnce InnermostWins Emit
